@@ -9,10 +9,58 @@ Section Rf4.
 Variable H : bytes -> bytes.
 Hypothesis Hlen : forall x, length (H x) = 32.
 Variable atomic : bool.
+Variable climit : nat.
 
 Notation enc := (enc H).
 Notation lrep := (lrep H).
-Notation inv_st := (inv_st H).
+Notation inv_st := (inv_st H climit).
+
+(** two batch roots at different heights (other than the byte(256) == byte(0) pair) with the
+    same hash break the hash function: the leaf hash contains the height byte *)
+Lemma height_clash_break : forall t h rp t2 h2 rp2,
+  h < h2 -> h2 <= 256 -> ~ (h = 0 /\ h2 = 256) ->
+  length rp + h = 256 -> length rp2 + h2 = 256 -> wf h t -> wf h2 t2 -> vals32 t -> vals32 t2 ->
+  1 <= size t -> th H h rp t = th H h2 rp2 t2 -> hash_break H.
+Proof.
+  induction t as [|k v|l IHl r IHr]; intros h rp t2 h2 rp2 Hlt Hle Hna Hh Hh2 W W2 V V2 Hs E0.
+  - simpl in Hs. lia.
+  - destruct t2 as [|k2 v2|l2 r2].
+    + exfalso. simpl in E0. apply (f_equal (@length _)) in E0. rewrite Hlen in E0. discriminate.
+    + simpl in E0, W, W2, V, V2.
+      match type of E0 with H ?p1 = H ?p2 => destruct (bytes_eq_dec p1 p2) as [Ep|Ep] end.
+      2:{ left. eexists; eexists; split; [exact Ep|exact E0]. }
+      exfalso.
+      assert (L1 : length (rev_append rp k) = 8 * 32) by (rewrite rev_append_rev, app_length, rev_length; lia).
+      assert (L2 : length (rev_append rp2 k2) = 8 * 32) by (rewrite rev_append_rev, app_length, rev_length; lia).
+      apply app_eq_len in Ep.
+      2:{ destruct (bits_bytes_inv 32 _ L1) as [_ ->]. destruct (bits_bytes_inv 32 _ L2) as [_ ->]. reflexivity. }
+      destruct Ep as [_ Ev]. apply app_inj_tail in Ev. destruct Ev as [_ Eb]. unfold height_byte in Eb.
+      assert (Hb : (N.of_nat h mod 256 = N.of_nat h2 mod 256)%N) by exact Eb.
+      destruct (Nat.eq_dec h2 256) as [->|Hn].
+      * change (N.of_nat 256 mod 256)%N with 0%N in Hb.
+        rewrite N.mod_small in Hb by lia. lia.
+      * rewrite !N.mod_small in Hb by lia. lia.
+    + left. simpl in E0. match type of E0 with H ?p1 = H ?p2 => exists p1, p2 end. split; [|exact E0].
+      intros Ep. apply (f_equal (@length _)) in Ep. simpl in W, V.
+      rewrite (leaf_pre_len rp h k v _ Hh W V) in Ep.
+      destruct (nd_pre_len H Hlen (pred h2) rp2 l2 r2) as [X|[X|X]]; rewrite X in Ep; discriminate.
+  - destruct t2 as [|k2 v2|l2 r2].
+    + exfalso. simpl in E0. apply (f_equal (@length _)) in E0. rewrite Hlen in E0. discriminate.
+    + left. simpl in E0. match type of E0 with H ?p1 = H ?p2 => exists p1, p2 end. split; [|exact E0].
+      intros Ep. apply (f_equal (@length _)) in Ep. simpl in W2, V2.
+      rewrite (leaf_pre_len rp2 h2 k2 v2 _ Hh2 W2 V2) in Ep.
+      destruct (nd_pre_len H Hlen (pred h) rp l r) as [X|[X|X]]; rewrite X in Ep; discriminate.
+    + destruct h as [|h']; [simpl in W; contradiction|]. destruct h2 as [|h2']; [lia|].
+      simpl in W, W2, V, V2, E0, Hs. destruct W as [Wl Wr]. destruct W2 as [Wl2 Wr2]. destruct V as [Vl Vr]. destruct V2 as [Vl2 Vr2].
+      match type of E0 with H ?p1 = H ?p2 => destruct (bytes_eq_dec p1 p2) as [Ep|Ep] end.
+      2:{ left. eexists; eexists; split; [exact Ep|exact E0]. }
+      destruct (cat_eq H Hlen _ _ _ _ (th_child_ok H h' (false :: rp) l) (th_child_ok H h' (true :: rp) r)
+                  (th_child_ok H h2' (false :: rp2) l2) (th_child_ok H h2' (true :: rp2) r2) Ep) as [[El Er]|S]; [|right; exact S].
+      destruct (size l) eqn:Esl.
+      * apply (IHr h' (true :: rp) r2 h2' (true :: rp2)); auto; simpl; lia.
+      * apply (IHl h' (false :: rp) l2 h2' (false :: rp2)); auto; simpl; lia.
+Qed.
+
 
 Lemma bget_repeat_nil n j : bget (repeat [] n) j = [].
 Proof. unfold bget. revert j; induction n; intros [|j]; simpl; auto. Qed.
@@ -29,28 +77,27 @@ Qed.
 Lemma clean_empty_batch i : clean empty_batch i.
 Proof. intros j Hj Hu. apply bget_repeat_nil. Qed.
 
-Theorem bupdate_ok : forall h, rec_ok H h (bupdate H atomic h).
+Theorem bupdate_ok : forall h, rec_ok H climit h (bupdate H atomic climit h).
 Proof.
   induction h as [|h' IH]; intros st root kvs cb i rp t st' cb' n' d Hinv Hh W V C G Pre Eu.
   - (* height 0: a leaf batch of its own *)
     left. destruct G as (K & Sk & Nn & Bv). cbn [bupdate] in Eu. change (0 mod 4) with 0. cbn [Nat.eqb].
     destruct kvs as [|[k [v|]] tl]; [congruence| |].
-    + destruct (leaf_hash_b H atomic st (bits_to_bytes (rev_append rp k)) v root empty_batch 0 0) as [[st2 b2] n2] eqn:El.
+    + destruct (leaf_hash_b H atomic climit st (bits_to_bytes (rev_append rp k)) v root empty_batch 0 0) as [[st2 b2] n2] eqn:El.
       injection Eu as <- <- <- <-.
       assert (Hk : length k = 0) by (inversion K; auto).
       assert (Hv : length v = 32) by (inversion Bv; auto).
       assert (Hl0 : lvl 0 0) by reflexivity.
-      destruct (leaf_hash_spec H Hlen atomic st k v root empty_batch 0 0 rp st2 b2 n2 Hinv Hh Hk Hv Hl0 eq_refl
+      destruct (leaf_hash_spec H Hlen atomic climit st k v root empty_batch 0 0 rp st2 b2 n2 Hinv Hh Hk Hv Hl0 eq_refl
                   (clean_empty_batch _) (clean_empty_batch _) El) as (A1 & A2 & A3 & A4 & A5).
       cbn [update fst snd]. split; [reflexivity|]. split; [exact A1|]. split; [exact A2|]. split; reflexivity.
     + injection Eu as <- <- <- <-. cbn [update fst snd]. split; [reflexivity|]. split; [reflexivity|]. split; [apply inv_delete; auto|]. split; reflexivity.
   - (* height S h' *)
     cbn [bupdate] in Eu.
     destruct (load_children st root (S h') i cb) as [[[[[b i'] l0] r0] sc]|] eqn:Elc; [|discriminate].
-    destruct (bbody H atomic (bupdate H atomic h') (S h') st root kvs b i' l0 r0 sc rp) as [[[[st2 b2] n2] d2]|] eqn:Eb; [|discriminate].
-    injection Eu as <- <- <- <-.
-    unfold load_children in Elc.
-    destruct (Nat.eqb (S h' mod 4) 0) eqn:Em.
+    destruct (bbody H atomic climit (bupdate H atomic climit h') (S h') st root kvs b i' l0 r0 sc rp) as [[[[st2 b2] n2] d2]|] eqn:Eb; [|discriminate].
+    remember (Nat.eqb (S h' mod 4) 0) as em eqn:Em. symmetry in Em.
+    destruct em; injection Eu as <- <- <- <-; unfold load_children in Elc; rewrite Em in Elc.
     + (* the node is the root of its own batch *)
       assert (Hl0 : lvl (S h') 0) by (unfold lvl; apply Nat.eqb_eq in Em; rewrite Em; reflexivity).
       assert (Load : (length b = 31 /\ i' = 0 /\ l0 = bget b 1 /\ r0 = bget b 2 /\ sc = is_leaf t /\ lrep (S h') b 0 rp t) \/ hash_break H).
@@ -59,19 +106,39 @@ Proof.
         - destruct root as [|x root'] eqn:Er; [simpl in Lr; lia|]. rewrite <- Er in *.
           destruct (load_batch st root) as [bb|] eqn:Elb; [|discriminate]. injection Elc as <- <- <- <- <-.
           apply Nat.eqb_eq in Em.
-          destruct (load_canonical H Hlen st root (S h') rp t bb Hinv Em Hh W V Hne Lr Hr Elb) as [(A1 & A2 & A3)|B]; [left|right; exact B].
+          destruct (load_canonical H Hlen climit st root (S h') rp t bb Hinv Em Hh W V Hne Lr Hr Elb) as [(A1 & A2 & A3)|B]; [left|right; exact B].
           repeat split; auto. rewrite A2. destruct t; try congruence; reflexivity. }
       destruct Load as [(Lb & -> & -> & -> & -> & R)|B]; [|right; exact B].
-      destruct (bbody_spec H Hlen atomic h' (bupdate H atomic h') st root kvs b 0 rp t st2 b2 n2 d2 IH Hinv Hh W V C G Hl0 Lb R Eb)
-        as [(A1 & A2 & A3 & A4 & A5)|B]; [left|right; exact B].
-      unfold ret_batch. rewrite Em. split; [exact A1|]. split; [exact A2|]. split; [exact A3|]. split; reflexivity.
+      destruct (bbody_spec H Hlen atomic climit h' (bupdate H atomic climit h') st root kvs b 0 rp t st2 b2 n2 d2 IH Hinv Hh W V C G Hl0 Lb R Eb)
+        as [(A1 & A2 & A3 & A4 & A5 & A6)|B]; [|right; exact B].
+      (* the aliasing of a batch obtained from liveCache keeps the cache content-addressed *)
+      assert (Alias : inv_st (alias_back atomic st st2 root b2) \/ hash_break H).
+      { unfold alias_back. destruct root as [|x0 root'] eqn:Er; [left; exact A3|]. rewrite <- Er in *.
+        destruct (negb atomic); [|left; exact A3].
+        destruct (alookup (cache st) (map_key root)) as [b0|] eqn:Ec0; [|left; exact A3].
+        destruct (alookup (cache st2) (map_key root)) as [bx|] eqn:Ec2; [|left; exact A3].
+        assert (Hroot : t <> E /\ 32 <= length root /\ hash_of root = th H (S h') rp t).
+        { destruct Pre as [[_ Hr0]|Hx]; [rewrite Er in Hr0; discriminate|exact Hx]. }
+        destruct Hroot as (Hne & Lr & Hr).
+        destruct (Nat.le_gt_cases climit (S h')) as [Hcl|Hcl].
+        - left. pose proof (A6 eq_refl Hcl Hne bx Ec2) as Ebx. subst bx.
+          destruct A3 as (Hu2 & Hd2 & Hc2). split; [exact Hu2|]. split; [exact Hd2|].
+          intros y yb [Hy|Hy]; [inversion Hy; subst; apply Hc2; apply alookup_in; exact Ec2|].
+          apply Hc2. eapply in_aremove; eauto.
+        - right. destruct Hinv as (_ & _ & Hc0).
+          destruct (Hc0 _ _ (alookup_in _ _ _ Ec0)) as (h3 & Hge & rp3 & t3 & Hm3 & Hh3 & W3 & V3 & Hne3 & Ex & _).
+          rewrite (map_key_hash_of root Lr), Hr in Ex.
+          apply (height_clash_break t (S h') rp t3 h3 rp3); auto; try lia.
+          destruct t as [|? ?|tl tr]; [congruence|simpl; lia|]. simpl in C. simpl. lia. }
+      destruct Alias as [Ia|B]; [left|right; exact B].
+      unfold ret_batch. rewrite Em. split; [exact A1|]. split; [exact A2|]. split; [exact Ia|]. split; reflexivity.
     + (* the node lives in its parent's batch *)
       destruct Pre as (Lc & Hl & R & Hslot). injection Elc as <- <- <- <- <-.
       rewrite Hslot, (is_shortcut_enc H Hlen) in Eb.
       assert (Hi0 : i <> 0).
       { intros ->. apply Nat.eqb_neq in Em. apply Em. apply (lvl_zero _ _ Hl). reflexivity. }
-      destruct (bbody_spec H Hlen atomic h' (bupdate H atomic h') st root kvs cb i rp t st2 b2 n2 d2 IH Hinv Hh W V C G Hl Lc R Eb)
-        as [(A1 & A2 & A3 & A4 & A5)|B]; [left|right; exact B].
+      destruct (bbody_spec H Hlen atomic climit h' (bupdate H atomic climit h') st root kvs cb i rp t st2 b2 n2 d2 IH Hinv Hh W V C G Hl Lc R Eb)
+        as [(A1 & A2 & A3 & A4 & A5 & _)|B]; [left|right; exact B].
       unfold ret_batch. rewrite Em. destruct (A5 Hi0) as [A6 A7].
       split; [exact A1|]. split; [exact A2|]. split; [exact A3|]. split; [lia|]. split; [exact A6|exact A7].
 Qed.
@@ -81,11 +148,11 @@ Qed.
 Theorem trie_update_b_refines st rt kvs t st' rt' :
   inv_st st -> wf 256 t -> vals32 t -> canon t -> good 256 kvs ->
   rt = Model.root H 256 t ->
-  trie_update_b H atomic st rt kvs = Some (st', rt') ->
+  trie_update_b H atomic climit st rt kvs = Some (st', rt') ->
   (rt' = Model.root H 256 (trie_update 256 t kvs) /\ inv_st st') \/ hash_break H.
 Proof.
   intros Hinv W V C G Hr Eu. unfold trie_update_b in Eu.
-  destruct (bupdate H atomic 256 st rt kvs [] 0 []) as [[[[st2 b2] n2] d2]|] eqn:Eb; [|discriminate].
+  destruct (bupdate H atomic climit 256 st rt kvs [] 0 []) as [[[[st2 b2] n2] d2]|] eqn:Eb; [|discriminate].
   injection Eu as <- <-.
   assert (Pre : root_ok H 256 [] rt t).
   { subst rt. unfold root_ok, Model.root. destruct t as [|k v|l r]; [left; auto| |]; right; (split; [discriminate|]); split.
